@@ -10,14 +10,14 @@ from .. import core, tlc
 ALL_DEV = ["D_CTE_VISIBLE_IN_OWN_BODY"]
 SPEC_DEV = ["D_COMMA_JOIN_DROPS_JOINED", "D_SCALAR_SUBQUERY_BLIND", "D_HAVING_SUBQUERY_BLIND", "D_CTE_VISIBLE_IN_OWN_BODY"]
 ALL_CLAUSES = {"where", "isub", "having", "union"}
-INVS = ["MachineTablesExact", "LocalsNeverReported", "NoopReportsNothing", "DeviationsAccountedFor", "EmitCase"]
+INVS = ["MachineTablesExact", "LocalsNeverReported", "NoopReportsNothing", "DeviationsAccountedFor", "DefaultEqualsQualified", "EmitCase"]
 
 
 def cfg(chk, name, maxev, kinds=("insert", "query"), known=(), emit=False, maxdepth=2, maxrel=3, maxcte=1, clauses=ALL_CLAUSES,
-        invariants=INVS, tbl=("a", "b"), ctes=("a", "x"), schemas=("none", "s")):
+        invariants=INVS, tbl=("a", "b"), ctes=("a", "x"), schemas=("none", "s"), defschemas=("none",)):
     return tlc.write_cfg(os.path.join(chk.work, name + ".cfg"),
                          constants=dict(MaxEv=maxev, MaxDepth=maxdepth, MaxRel=maxrel, MaxCte=maxcte, TblNames=set(tbl), CteNames=set(ctes),
-                                        Schemas=set(schemas), Kinds=set(kinds), Known=set(known), Emit=emit, Clauses=set(clauses)),
+                                        Schemas=set(schemas), Kinds=set(kinds), Known=set(known), Emit=emit, Clauses=set(clauses), DefSchemas=set(defschemas)),
                          invariants=list(invariants))
 
 
@@ -68,9 +68,33 @@ def generate(chk, quick, seed):
     return cases, n_exh
 
 
+def prog_features(prog):
+    """structural features of a program, used only to IDENTIFY feature-scoped known findings"""
+    f = set()
+    depth_joined = {}
+    stack = [False]
+    for e in prog:
+        k = e["e"]
+        if k in ("tbl", "cteref", "sub"):
+            if e["a"] == "inner":
+                stack[-1] = True
+            elif e["a"] == "comma" and stack[-1]:
+                f.add("comma_after_join")
+        if k in ("sub", "where", "isub", "having", "cte", "main"):
+            stack.append(False)
+            if k in ("having", "isub", "where"):
+                f.add(k + "_subquery")
+        if k == "union":
+            stack[-1] = False
+            f.add("union")
+        if k == "end" and len(stack) > 1:
+            stack.pop()
+    return sorted(f) or ["none"]
+
+
 def decide(chk, cases, obs, label):
     """all observations go through Trace_Stmt; returns verdict list"""
-    traces = [{"prog": c["prog"], "reads": o["reads"], "target": o["target"], "exc": o["exc"]} for c, o in zip(cases, obs)]
+    traces = [{"prog": c["prog"], "reads": o["reads"], "target": o["target"], "exc": o["exc"], "ds": o.get("ds", "none")} for c, o in zip(cases, obs)]
     tcfg = os.path.join(tlc.SPEC, "Trace_Stmt.cfg")
     verdicts = {}
     B = 6000
@@ -95,7 +119,7 @@ def decide(chk, cases, obs, label):
                 continue
             verdict = "deviation_not_listed:" + verdict
         chk.reject({"module": "Stmt", "clause": verdict.split(":")[0], "dialect": o["dialect"], "exception": o["exc"],
-                    "kind": c["prog"][0]["a"]}, replay)
+                    "kind": c["prog"][0]["a"], "features": prog_features(c["prog"])}, replay)
         out.append(verdict)
     return out
 
@@ -134,7 +158,7 @@ def run(chk):
         o["reads"] = o["reads"][1:]
         o2 = copy.deepcopy(obs[ok[0]])
         o2["reads"] = o2["reads"] + ["<default>.q1"]
-        tr = [{"prog": c["prog"], "reads": x["reads"], "target": x["target"], "exc": x["exc"]} for x in (o, o2)]
+        tr = [{"prog": c["prog"], "reads": x["reads"], "target": x["target"], "exc": x["exc"], "ds": "none"} for x in (o, o2)]
         v = core.validate_traces(chk, "Trace_Stmt", os.path.join(tlc.SPEC, "Trace_Stmt.cfg"), tr, "selftest")
         chk.cov["traces_validated_against_impl"] -= 2
         chk.self_test("a dropped source table / a reported alias is rejected", v[1][1] == "misses_table_read" and v[2][1] == "reports_table_not_read",
